@@ -462,3 +462,95 @@ func (x *searcher) execLines(r *vlib.Run) {
 		x.r.Violation("C18:lines:child-process-output", "output of a child process writing alternately to stdout and stderr: "+bad, map[string]any{"files": files, "first_lines": lines[:min(len(lines), 12)]})
 	}
 }
+
+// ---- C14: collections while one Project stays loaded and is reloaded (watch mode, REPL) ----
+//
+// A small project whose only target lists a set of sources that changes between reloads (every
+// subset of {a.txt, b.txt}, the empty one included: then no source record is live). Every
+// sequence of <=4 operations {set the sources to S, Reload, Run} / {GC on the loaded Project} is
+// run twice, with and without its collections: every Run must end the same way and execute the
+// same bodies in both.
+func (x *searcher) gcUnderLongLivedProject(r *vlib.Run) {
+	sets := [][]string{{}, {"a.txt"}, {"b.txt"}, {"a.txt", "b.txt"}}
+	build := func(set []string) string {
+		q := make([]string, len(set))
+		for i, s := range set {
+			q[i] = fmt.Sprintf("%q", s)
+		}
+		return "def _pack(t):\n    step(\"pack\")\ntarget(name=\"pack\", function=_pack, sources=[" + strings.Join(q, ", ") + "])\n"
+	}
+	const gc = 4 // operation index of the collection
+	var seqs [][]int
+	var gen func(prefix []int)
+	gen = func(prefix []int) {
+		if len(prefix) > 0 {
+			hasGC := false
+			for _, o := range prefix {
+				hasGC = hasGC || o == gc
+			}
+			if hasGC && prefix[len(prefix)-1] != gc {
+				seqs = append(seqs, append([]int{}, prefix...))
+			}
+		}
+		if len(prefix) == 4 {
+			return
+		}
+		for o := 0; o <= gc; o++ {
+			gen(append(prefix, o))
+		}
+	}
+	gen(nil)
+	play := func(seq []int, withGC bool) []string {
+		var out []string
+		x.withRoot(func(root string) {
+			writeTree(root, map[string]string{"dawn.toml": "name = \"p\"\n", "a.txt": "a\n", "b.txt": "b\n", "BUILD.dawn": build(sets[1])})
+			be := &bodyEnv{root: root, fail: map[string]bool{}}
+			proj, err := dawn.Load(root, &dawn.LoadOptions{Events: dawn.DiscardEvents, Builtins: be.builtins()})
+			if err != nil {
+				vlib.Fatalf("long-lived project does not load: %v", err)
+			}
+			l, _ := label.Parse("//:pack")
+			runIt := func() {
+				be.mu.Lock()
+				be.steps = nil
+				be.mu.Unlock()
+				err := proj.Run(l, nil)
+				out = append(out, fmt.Sprintf("run: err=%v executed=%v", err != nil, len(be.steps) > 0))
+			}
+			runIt()
+			for _, o := range seq {
+				if o == gc {
+					if withGC {
+						if err := proj.GC(); err != nil {
+							out = append(out, "gc error: "+err.Error())
+						}
+					}
+					continue
+				}
+				os.WriteFile(filepath.Join(root, "BUILD.dawn"), []byte(build(sets[o])), 0o644)
+				if err := proj.Reload(); err != nil {
+					out = append(out, "reload error: "+err.Error())
+					return
+				}
+				runIt()
+			}
+		})
+		return out
+	}
+	var mu sync.Mutex
+	r.Parallel(len(seqs), func(i int) {
+		with, without := play(seqs[i], true), play(seqs[i], false)
+		mu.Lock()
+		defer mu.Unlock()
+		r.Add("long_lived_project_sequences", 1)
+		if strings.Join(with, "|") != strings.Join(without, "|") {
+			names := []string{"sources={}", "sources={a}", "sources={b}", "sources={a,b}", "gc"}
+			var h []string
+			for _, o := range seqs[i] {
+				h = append(h, names[o])
+			}
+			x.r.Violation("C14:gc:changes-next-build-of-a-long-lived-project", fmt.Sprintf("one loaded Project, [load, run, %s] (every sources= step is followed by Reload and Run): with the collections the runs give %v, without them %v", strings.Join(h, ", "), with, without),
+				map[string]any{"sequence": h, "with_gc": with, "without_gc": without})
+		}
+	})
+}
